@@ -13,6 +13,9 @@ def check(rep):
     LR.rule_trivia_silent(ctx)
     LR.rule_trivia_shield(ctx)
     LR.rule_trivia_munch(ctx)
+    # a comment opener inside the text of a token (a keyword pattern that swallows `//...` or `/*...*/` between its words) makes the
+    # comment's content part of what decides the token
+    LR.rule_token_spelling(ctx, rid="C08.TOKEN-SPELLING", directions=("lexer<=doc",))
     from . import evalrules as ER
     # a parse must start in the main lexer state: a lexer object kept between parses stays inside an unterminated comment
     ER.rule_fresh_per_parse(ctx, rid="C08.STARTS-IN-MAIN-STATE", kinds=("Lexer",))
